@@ -59,6 +59,7 @@ def gfa_text(nodes, links, tagged):
     for n, g in nodes.items():
         tags = [f"LN:i:{len(g['seq'])}", f"SN:Z:{g['sn']}", f"SO:i:{g['so']}", f"SR:i:{g['sr']}"] + ([f"BO:i:{g['bo']}", f"NO:i:{g['no']}"] if tagged else [])
         out.append("\t".join(["S", n, g["seq"]] + tags))
+    out = out[: len(out) // 2] + [""] + out[len(out) // 2 :] + ["", "# links"]      # blank and comment lines are legal
     out += [f"L\t{a}\t{ao}\t{b}\t{bo}\t0M" for a, ao, b, bo in links]
     return "\n".join(out) + "\n"
 
